@@ -1327,17 +1327,21 @@ package bpmn
 // The remaining node goroutines: message loops that block in a select offering the cancellation alternative and take no
 // further turn once they have observed it (C07).
 //@ func (*startEvent).run
-//@   prop C07
+//@   prop C07 C14
+//@   requires evt.satisfier != nil && cesShape(evt.satisfier) && cesDistinct(evt.satisfier) && cesNoneFull(evt.satisfier) && cesCommonBit(evt.satisfier)
 //@   loop 1 for
 //@     cancels ctx
+//@     invariant evt.satisfier == old(evt.satisfier) && cesShape(evt.satisfier) && cesDistinct(evt.satisfier) && cesNoneFull(evt.satisfier) && cesCommonBit(evt.satisfier)
 //@ func (*endEvent).run
 //@   prop C07
 //@   loop 1 for
 //@     cancels ctx
 //@ func (*throwEvent).run
-//@   prop C07
+//@   prop C07 C14
+//@   requires evt.satisfier != nil && tesShape(evt.satisfier) && tesDistinct(evt.satisfier) && tesNoneFull(evt.satisfier) && tesCommonBit(evt.satisfier)
 //@   loop 1 for
 //@     cancels ctx
+//@     invariant evt.satisfier == old(evt.satisfier) && tesShape(evt.satisfier) && tesDistinct(evt.satisfier) && tesNoneFull(evt.satisfier) && tesCommonBit(evt.satisfier)
 //@ func (*subProcess).run
 //@   prop C07 C12
 //@   loop 1 for
